@@ -12,13 +12,17 @@ import copy
 import itertools
 import math
 
+import warnings
+
 import numpy as np
 
 from common.util import Result, f2b, b2f, fl, err_kind
 from common import nets, nets_g, batch_g
 
+warnings.filterwarnings('ignore', message='Polyfit may be poorly conditioned')
+
 ID = 'C16'
-N = {'quick': 160, 'thorough': 2400}
+N = {'quick': 160, 'thorough': 2000}
 LEAN_MODULES = ['GnpyProofs.Props.C16']
 THEOREMS = [f'Gnpy.Plan.{t}' for t in (
     'plan_results_pointwise', 'plan_result_context', 'plan_perm', 'plan_leaves_settings', 'copy_leaves_settings',
@@ -29,7 +33,12 @@ RULE = ('one PRNG; batch cases (85 %): random mesh of 3-5 ROADM sites + island, 
         'saturating (a +3..5 dB offset comb over the full band that drives amplifiers into their p_max clamp; the number of '
         'clamped amplifier calls is counted in the evidence), run as a whole, one by one and in 3 permutations (thorough: all '
         'permutations up to 4 requests, 8 otherwise); 10 % of the batches are malformed (duplicate id, unknown transceiver, '
-        'unknown node) and must be rejected leaving the network unchanged; edfa cases (15 %): one real amplifier of a '
+        'unknown node) and must be rejected leaving the network unchanged; multiband batches (18 %: shipped multiband example '
+        'or generated C+L chains, a dense 37.5 GHz request that clamps band amplifiers followed by ordinary requests over the same '
+        'Multiband_amplifier elements; per-band gains are part of the snapshot); batches under NON-DEFAULT process-wide SimParams '
+        '(9 %: ggn_approx, thorough also ggn_spectrally_separated, computed_number_of_channels 5/8, Raman flag on/off, a request '
+        'with fewer carriers than that number before a full-comb one, both orders; SimParams._shared_dict is snapshotted before '
+        'and after every planning and restored by the harness); edfa cases (12 %): one real amplifier of a '
         'designed line called with 2-6 successive spectra of different total power. Non-trivial: a batch with >= 2 requests '
         'sharing at least one amplifier, or an amplifier sequence with at least one clamped call')
 MODEL_SCOPE = ('modelled: planning as a function (results = map of a per-request computation, slots = fold), the per-request '
@@ -47,10 +56,17 @@ NOPATH = ('NO_PATH', 'NO_PATH_WITH_CONSTRAINT', 'NO_FEASIBLE_BAUDRATE_WITH_SPACI
 
 
 def gen(rng, tier, widen=False):
-    if rng.random() < 0.15 and not widen:
+    u = rng.random()
+    if u < 0.12 and not widen:
         return gen_edfa(rng)
-    case = batch_g.gen_batch(rng, tier, kinds=KINDS)
-    case['kind'] = 'batch'
+    if u < 0.30:
+        case = gen_multiband(rng, tier)
+    elif u < 0.39:
+        case = gen_sim(rng, tier)
+    else:
+        case = batch_g.gen_batch(rng, tier, kinds=KINDS)
+        case['kind'] = 'batch'
+    case.setdefault('sim', None)
     case['malformed'] = None
     k = len(case['requests'])
     perms = []
@@ -62,8 +78,11 @@ def gen(rng, tier, widen=False):
             rng.shuffle(p)
             perms.append(p)
         perms[0] = list(reversed(range(k)))
+    if case['sim']:
+        perms = perms[:2] if (case['sim']['method'] == 'ggn_approx' and tier == 'thorough') else perms[:1]
+        perms[0] = list(reversed(range(k)))
     case['perms'] = perms
-    if rng.random() < 0.10:
+    if case['kind'] == 'batch' and case['sim'] is None and rng.random() < 0.10:
         t = rng.choice(['dup_id', 'unknown_trx', 'unknown_node'])
         r = rng.choice(case['requests'])
         if t == 'dup_id' and k > 1:
@@ -76,6 +95,57 @@ def gen(rng, tier, widen=False):
             r['dst'] = 99
             case['malformed'] = t
     return case
+
+
+def gen_sim(rng, tier):
+    """a batch computed under NON-DEFAULT process-wide simulation parameters (GGN NLI evaluated on
+    computed_number_of_channels carriers, Raman flag on/off); a request with FEWER carriers than that number comes before a
+    full-comb request (the reversed order is always among the permutations)"""
+    # ggn_spectrally_separated costs 10-50 s per batch: thorough tier only
+    method = rng.choice(['ggn_approx', 'ggn_approx', 'ggn_approx', 'ggn_spectrally_separated']) if tier == 'thorough' else 'ggn_approx'
+    nreq = rng.choice([2, 2, 3] if tier == 'quick' else [2, 3, 3, 4]) if method == 'ggn_approx' else 2
+    case = batch_g.gen_batch(rng, tier, nreq=nreq, kinds=['fixed', 'fixed', 'hard', 'sparse'])
+    case['kind'] = 'batch'
+    case['sim'] = {'method': method, 'ncomp': rng.choice([5, 8, 8]), 'raman': rng.random() < 0.4}
+    n = case['n']
+    case['requests'][0] = batch_g.gen_request(rng, 'r0', 'sparse', n, [])
+    case['requests'][1] = batch_g.gen_request(rng, 'r1', 'dense' if (method == 'ggn_approx' and rng.random() < 0.4) else 'fixed', n,
+                                              case['requests'][:1])
+    if rng.random() < 0.5:      # the two on the same route
+        for k_ in ('src', 'dst'):
+            case['requests'][1][k_] = case['requests'][0][k_]
+    return case
+
+
+MB_TRX = ['trx Site_A', 'trx Site_D', 'trx Site_G', 'trx Site_L']
+
+
+def gen_multiband(rng, tier):
+    """batches on multiband networks (Multiband_amplifier keeps its per-band Edfa objects in a dict): the shipped example or a
+    generated C+L chain; a dense request (37.5 GHz spacing: many more carriers than the design) that saturates band
+    amplifiers, followed by ordinary requests over the same amplifiers"""
+    from common import specrec
+    if rng.random() < 0.6:
+        net = {'example': True}
+        ends = MB_TRX
+        main = ('trx Site_A', 'trx Site_D')
+    else:
+        hops = specrec.gen_mb_hops(rng)
+        net = {'example': False, 'hops': hops}
+        ends = [f'trx {i}' for i in range(len(hops) + 1)]
+        main = (ends[0], ends[-1])
+    reqs = []
+    k = rng.choice([2, 2, 3, 4])
+    for i in range(k):
+        if i < 2 or rng.random() < 0.5:
+            s, d = main if rng.random() < 0.7 else main[::-1]
+        else:
+            s, d = rng.sample(ends, 2)
+        dense = (i == 0) or rng.random() < 0.2
+        reqs.append({'id': f'r{i}', 'kind': 'mb_dense' if dense else 'mb_plain', 'src_uid': s, 'dst_uid': d, 'src': 0, 'dst': 0,
+                     'type': 'Voyager', 'mode': 'mode 1', 'spacing': 37.5e9 if dense else rng.choice([50e9, 50e9, 75e9]),
+                     'bidir': rng.random() < 0.4, 'bw': 100e9, 'power': None, 'include': None, 'strict': True, 'nm': None})
+    return {'kind': 'multiband', 'net': net, 'requests': reqs, 'n': 0}
 
 
 def gen_edfa(rng):
@@ -111,14 +181,48 @@ class _ClampSpy:
 def _snapshot(net):
     """designed settings (network_to_json) + run-time operating point of every element"""
     from gnpy.tools.json_io import network_to_json
-    from gnpy.core.elements import Edfa, Roadm, Fiber
+    from gnpy.core.elements import Edfa, Roadm, Fiber, Multiband_amplifier
     rt = {}
     for n in net.nodes():
         if isinstance(n, Edfa):
             rt[n.uid] = [n.effective_gain, n.delta_p, n.out_voa, n.tilt_target, n.target_pch_out_dbm]
         elif isinstance(n, Roadm):
             rt[n.uid] = [dict(n.per_degree_pch_out_dbm), dict(n.ref_pch_in_dbm)]
+        elif isinstance(n, Multiband_amplifier):
+            rt[n.uid] = {band: [a.effective_gain, a.delta_p, a.out_voa, a.tilt_target] for band, a in n.amplifiers.items()}
     return batch_g.canon({'json': network_to_json(net), 'rt': rt})
+
+
+def _sim_snapshot():
+    """the process-wide simulation settings (SimParams._shared_dict)"""
+    from gnpy.core.parameters import SimParams
+    d = SimParams._shared_dict
+    return batch_g.canon({'nli_params': d['nli_params'].to_json(), 'raman_params': d['raman_params'].to_json()})
+
+
+def _set_sim(sim):
+    from gnpy.core.parameters import SimParams
+    if not sim:
+        SimParams.set_params({})
+    else:
+        SimParams.set_params({'nli_params': {'method': sim['method'], 'computed_number_of_channels': sim['ncomp']},
+                              'raman_params': {'flag': bool(sim['raman'])}})
+
+
+def _build(case):
+    if case['kind'] != 'multiband':
+        return batch_g.build(case)
+    import copy as _c
+    from common import specrec
+    if case['net']['example']:
+        from gnpy.tools.json_io import load_json, network_from_json
+        from gnpy.tools.worker_utils import designed_network
+        eq = nets.eqpt('eqpt_config_multiband.json')
+        net = network_from_json(load_json(nets.EX / 'multiband_example_network.json'), eq)
+        net, _, _ = designed_network(eq, net)
+    else:
+        eq, net = _c.deepcopy(specrec.mb_chain_net(case['net']['hops']))
+    return {'eq': eq, 'net': net}
 
 
 def _core(j, aggregated):
@@ -181,20 +285,35 @@ def _arr_close(a, b):
 def run(case, drv):
     if case['kind'] == 'edfa':
         return run_edfa(case, drv)
+    _set_sim(case.get('sim'))
+    try:
+        return _run_batch(case, drv)
+    finally:
+        _set_sim(None)     # the harness restores the process-wide settings whatever happened
+
+
+def _run_batch(case, drv):
     from gnpy.core.exceptions import ServiceError, EquipmentConfigError
     res = Result()
-    ctx = batch_g.build(case)
+    ctx = _build(case)
     net = ctx['net']
+    sim0 = _sim_snapshot()
     reqs = case['requests']
     snap0 = _snapshot(net)
     mal = case.get('malformed')
     exp_err = {'dup_id': 'ValueError', 'unknown_trx': 'EquipmentConfigError', 'unknown_node': 'ServiceError'}.get(mal)
 
     def unchanged(what):
+        ok = True
         if _snapshot(net) != snap0:
             res.fail(f'settings changed: the designed network differs after {what}')
-            return False
-        return True
+            ok = False
+        s1 = _sim_snapshot()
+        if s1 != sim0:
+            res.fail(f'settings changed: the process-wide simulation parameters differ after {what}: {s1[:200]} (before: {sim0[:200]})')
+            _set_sim(case.get('sim'))     # put them back so that the remaining comparisons of this case are meaningful
+            ok = False
+        return ok
     with _ClampSpy() as spy:
         try:
             full, order = _plan(ctx, reqs)
@@ -203,7 +322,8 @@ def run(case, drv):
             impl_err = err_kind(e)
         model_err = drv.ask('c19.batch_check', trx_known=[r['type'] in ctx['eq']['Transceiver'] for r in reqs],
                             ids=[r['id'] for r in reqs],
-                            endpoints_known=[r['dst'] <= case['n'] + 1 and r['src'] <= case['n'] + 1 for r in reqs],
+                            endpoints_known=[bool(r.get('src_uid')) or (r['dst'] <= case['n'] + 1 and r['src'] <= case['n'] + 1)
+                                             for r in reqs],
                             strict_unknown_include=[bool(r['include']) and r['strict'] and any(
                                 x not in {n.uid for n in net.nodes()} for x in r['include']) for r in reqs])
         res.cmp_exact('planning.error_kind', impl_err, model_err)
@@ -232,7 +352,7 @@ def run(case, drv):
     routes = [set(full[r['id']][0].get('hops', [])) for r in reqs]
     for i in range(len(routes)):
         for k in range(i + 1, len(routes)):
-            if any('Edfa' in h for h in routes[i] & routes[k]):
+            if any(('Edfa' in h or 'edfa' in h or h.startswith('amp ')) for h in routes[i] & routes[k]):
                 shared_amp = True
     for r in reqs:
         rid = r['id']
@@ -274,7 +394,11 @@ def run(case, drv):
     res.nontrivial = len(reqs) >= 2 and shared_amp
     res.stats.update({'requests': len(reqs), 'plannings': 1 + len(reqs) + len(perms), 'clamped_amplifier_calls_in_batch': clamped_full,
                       'batches_with_clamped_amplifier': int(clamped_full > 0), 'batches_sharing_an_amplifier': int(shared_amp),
-                      'aggregated_batches': int(any(v[2] for v in full.values()))})
+                      'aggregated_batches': int(any(v[2] for v in full.values())),
+                      'multiband_batches': int(case['kind'] == 'multiband'),
+                      'multiband_batches_with_clamped_band_amplifier': int(case['kind'] == 'multiband' and clamped_full > 0),
+                      'non_default_simparams_batches': int(bool(case.get('sim'))),
+                      f'nli_method_{(case.get("sim") or {}).get("method", "gn_model_analytic")}': 1})
     for r in reqs:
         res.stats[f'kind_{r["kind"]}'] += 1
         res.stats[f'verdict_{full[r["id"]][0]["verdict"]}'] += 1
@@ -330,7 +454,7 @@ def run_edfa(case, drv):
 
 
 def shrink_candidates(case):
-    if case['kind'] != 'batch':
+    if case['kind'] == 'edfa':
         if len(case['calls']) > 1:
             for i in range(len(case['calls'])):
                 c = copy.deepcopy(case)
